@@ -83,6 +83,16 @@ CLAIMED = {
              "evidence). OS threads and other loops are outside.",
         ref="§4 C05", technique="symbolic execution with symbolic time on a virtual event loop (CrossHair + z3)", engine="vloop",
     ),
+    "C07": dict(
+        text="Bounded symbolic execution (CrossHair + z3) of the real HSFZConnection/HSFZTransport on a virtual-time event loop against a scripted gateway: "
+             "frame instants, the cut offset of one frame (or of the whole coalesced stream) and its gap, and the ack timeout are symbolic, the solver decides "
+             "all orderings relative to the ack and read deadlines. Checked against a reference: write completes iff a matching ack (control word, address pair, "
+             "first five bytes) arrives in time else BrokenPipeError at the ack timeout and the connection is closed; reads deliver exactly the ECU->tester data "
+             "payloads in order; alive checks are answered at the instant they are complete; error control words surface as connection errors.",
+        note="Trusted: CrossHair, z3, engine/vloop.py. Frame kinds are concrete per obligation (<= 3 frames); kernel TCP outside. One recorded known finding "
+             "(re-queue reorders data frames).",
+        ref="§4 C07", technique="symbolic execution with symbolic time on a virtual event loop (CrossHair + z3)", engine="vloop",
+    ),
     "C02": dict(
         text="Bounded symbolic execution (CrossHair + z3) of the real UDSResponse.parse_dynamic / from_pdu / pdu code: for every first byte "
              "0x00-0xFF and every total length in the stated bound, with all remaining bytes symbolic, every path is explored and the "
